@@ -558,82 +558,119 @@ int aws_cbor_decoder_peek_type(struct aws_cbor_decoder *decoder, enum aws_cbor_t
     return AWS_OP_SUCCESS;
 }
 
+/* One open container while skipping a whole data item. */
+struct cbor_skip_frame {
+    uint64_t remaining; /* definite containers: array items / map pairs still to be consumed */
+    bool indefinite;    /* closed by a break instead of a count */
+    bool is_map;        /* a pair is complete after two data items */
+    bool have_key;      /* map: the key of the current pair has been consumed */
+};
+
+/* A data item directly inside the innermost open container has been consumed completely. Close every definite
+ * container this completes. Returns true when the outermost data item itself is complete. */
+static bool s_cbor_skip_item_completed(struct aws_array_list *open_containers) {
+    for (;;) {
+        size_t depth = aws_array_list_length(open_containers);
+        if (depth == 0) {
+            return true;
+        }
+        struct cbor_skip_frame *top = NULL;
+        aws_array_list_get_at_ptr(open_containers, (void **)&top, depth - 1);
+        if (top->indefinite) {
+            return false;
+        }
+        if (top->is_map && !top->have_key) {
+            top->have_key = true;
+            return false;
+        }
+        top->have_key = false;
+        if (--top->remaining > 0) {
+            return false;
+        }
+        /* that was the last item of this container: the container is a completed item of its parent */
+        aws_array_list_pop_back(open_containers);
+    }
+}
+
 int aws_cbor_decoder_consume_next_whole_data_item(struct aws_cbor_decoder *decoder) {
     if (decoder->error_code) {
         /* Error happened during decoding */
         return aws_raise_error(decoder->error_code);
     }
 
-    if (decoder->cached_context.type == AWS_CBOR_TYPE_UNKNOWN) {
-        /* There was no cache, decode the next item */
-        if (s_cbor_decode_next_element(decoder)) {
-            return AWS_OP_ERR;
-        }
-    }
-    switch (decoder->cached_context.type) {
-        case AWS_CBOR_TYPE_TAG:
-            /* Read the next data item */
-            decoder->cached_context.type = AWS_CBOR_TYPE_UNKNOWN;
-            if (aws_cbor_decoder_consume_next_whole_data_item(decoder)) {
-                return AWS_OP_ERR;
-            }
-            break;
-        case AWS_CBOR_TYPE_MAP_START: {
-            uint64_t num_map_item = decoder->cached_context.u.map_start;
-            /* Reset type */
-            decoder->cached_context.type = AWS_CBOR_TYPE_UNKNOWN;
-            for (uint64_t i = 0; i < num_map_item; i++) {
-                /* Key */
-                if (aws_cbor_decoder_consume_next_whole_data_item(decoder)) {
-                    return AWS_OP_ERR;
-                }
-                /* Value */
-                if (aws_cbor_decoder_consume_next_whole_data_item(decoder)) {
-                    return AWS_OP_ERR;
-                }
-            }
-            break;
-        }
-        case AWS_CBOR_TYPE_ARRAY_START: {
-            uint64_t num_array_item = decoder->cached_context.u.array_start;
-            /* Reset type */
-            decoder->cached_context.type = AWS_CBOR_TYPE_UNKNOWN;
-            for (uint64_t i = 0; i < num_array_item; i++) {
-                /* item */
-                if (aws_cbor_decoder_consume_next_whole_data_item(decoder)) {
-                    return AWS_OP_ERR;
-                }
-            }
-            break;
-        }
-        case AWS_CBOR_TYPE_INDEF_BYTES_START:
-        case AWS_CBOR_TYPE_INDEF_TEXT_START:
-        case AWS_CBOR_TYPE_INDEF_ARRAY_START:
-        case AWS_CBOR_TYPE_INDEF_MAP_START: {
-            enum aws_cbor_type next_type;
-            /* Reset the cache for the tag val */
-            decoder->cached_context.type = AWS_CBOR_TYPE_UNKNOWN;
-            if (aws_cbor_decoder_peek_type(decoder, &next_type)) {
-                return AWS_OP_ERR;
-            }
-            while (next_type != AWS_CBOR_TYPE_BREAK) {
-                if (aws_cbor_decoder_consume_next_whole_data_item(decoder)) {
-                    return AWS_OP_ERR;
-                }
-                if (aws_cbor_decoder_peek_type(decoder, &next_type)) {
-                    return AWS_OP_ERR;
-                }
-            }
-            break;
-        }
-
-        default:
-            break;
+    /* The open containers are kept in a list instead of on the call stack, so that the nesting depth of (possibly
+     * hostile) input is bounded by memory and not by the size of the thread's stack. */
+    struct aws_array_list open_containers;
+    if (aws_array_list_init_dynamic(&open_containers, decoder->allocator, 8, sizeof(struct cbor_skip_frame))) {
+        return AWS_OP_ERR;
     }
 
-    /* Done, just reset the cache */
-    decoder->cached_context.type = AWS_CBOR_TYPE_UNKNOWN;
-    return AWS_OP_SUCCESS;
+    int result = AWS_OP_ERR;
+    bool done = false;
+    while (!done) {
+        if (decoder->cached_context.type == AWS_CBOR_TYPE_UNKNOWN) {
+            /* There was no cache, decode the next item */
+            if (s_cbor_decode_next_element(decoder)) {
+                goto clean_up;
+            }
+        }
+        enum aws_cbor_type type = decoder->cached_context.type;
+        struct cbor_skip_frame frame;
+        AWS_ZERO_STRUCT(frame);
+        bool opens_container = false;
+        switch (type) {
+            case AWS_CBOR_TYPE_TAG:
+                /* The tag and the data item that follows it count as one item: just go on to that item. */
+                decoder->cached_context.type = AWS_CBOR_TYPE_UNKNOWN;
+                continue;
+            case AWS_CBOR_TYPE_MAP_START:
+                frame.remaining = decoder->cached_context.u.map_start;
+                frame.is_map = true;
+                opens_container = true;
+                break;
+            case AWS_CBOR_TYPE_ARRAY_START:
+                frame.remaining = decoder->cached_context.u.array_start;
+                opens_container = true;
+                break;
+            case AWS_CBOR_TYPE_INDEF_BYTES_START:
+            case AWS_CBOR_TYPE_INDEF_TEXT_START:
+            case AWS_CBOR_TYPE_INDEF_ARRAY_START:
+            case AWS_CBOR_TYPE_INDEF_MAP_START:
+                frame.indefinite = true;
+                opens_container = true;
+                break;
+            case AWS_CBOR_TYPE_BREAK: {
+                size_t depth = aws_array_list_length(&open_containers);
+                struct cbor_skip_frame *top = NULL;
+                if (depth > 0) {
+                    aws_array_list_get_at_ptr(&open_containers, (void **)&top, depth - 1);
+                }
+                if (top != NULL && top->indefinite) {
+                    /* closes the innermost indefinite-length container, which is then a completed item */
+                    aws_array_list_pop_back(&open_containers);
+                }
+                break;
+            }
+            default:
+                break;
+        }
+        /* Reset the cache: the element has been consumed */
+        decoder->cached_context.type = AWS_CBOR_TYPE_UNKNOWN;
+
+        if (opens_container && (frame.indefinite || frame.remaining > 0)) {
+            if (aws_array_list_push_back(&open_containers, &frame)) {
+                goto clean_up;
+            }
+            continue;
+        }
+        /* a plain element, an empty definite container, or a container closed by its break */
+        done = s_cbor_skip_item_completed(&open_containers);
+    }
+    result = AWS_OP_SUCCESS;
+
+clean_up:
+    aws_array_list_clean_up(&open_containers);
+    return result;
 }
 
 int aws_cbor_decoder_consume_next_single_element(struct aws_cbor_decoder *decoder) {
